@@ -89,3 +89,24 @@ extern "C" void h_hex_decode_any(void)
 	vp_note(b.length());
 	vp_reach(4);
 }
+
+// p0 = n data bytes, p1 = number of whitespace characters inserted at symbolic positions of the Base64 text
+// (anywhere, including between and after the '=' padding): decoding still returns the original bytes
+extern "C" void h_b64_ws(void)
+{
+	int n = vp_param(0), nws = vp_param(1);
+	byte d[8];
+	for (int i = 0; i < n; i++) d[i] = nondet_u8();
+	char ref[16]; int rl = ref_b64(d, n, ref);
+	char t[24]; memcpy(t, ref, rl + 1); int tl = rl;
+	for (int w = 0; w < nws; w++) {
+		int pos = vp_concretize(vp_range(0, tl));
+		int k = vp_concretize(vp_range(0, 3));
+		memmove(t + pos + 1, t + pos, tl - pos + 1);
+		t[pos] = " \n\t\r"[k]; tl++;
+	}
+	ByteArray b = decodeBase64(t, -1);
+	vp_assert(b.length() == n, "Base64 text interleaved with whitespace decodes to the original length");
+	for (int i = 0; i < n && i < b.length(); i++) vp_assert(b[i] == d[i], "Base64 text interleaved with whitespace decodes to the original bytes");
+	vp_reach(10);
+}
